@@ -366,6 +366,61 @@ def run_random(scratch, binp, jobs, name="rnd"):
     return inp, outp
 
 
+def conform(scratch, famname, trace, par=16, consts_override=None):
+    """Drift monitor: replay the recorded trace through the mechanism layer (specs/PoolConform.tla) with the
+    family's configuration constants. Returns {scripts ok, drift, first drifts}."""
+    from concurrent.futures import ThreadPoolExecutor
+    consts = dict(FAMILIES[famname])
+    consts.update(dict(MaxConn=12, MaxCalls=200, MaxPub=400, MaxDepth=100000, StalePick=1000, Pre=0, Keys=[1, 2, 3, 4],
+                       UseFail=True, UseUnknown=True, UseBadReq=True, MatchLevel=3))
+    consts.update(consts_override or {})
+    lines = open(trace).readlines()
+    chunks, cur = [], []
+    target = max(800, len(lines) // par + 1)
+    for ln in lines:
+        if ln.startswith('{"sid":') and '"op":"reset"' in ln[:90] and len(cur) >= target:
+            chunks.append(cur)
+            cur = []
+        cur.append(ln)
+    if cur:
+        chunks.append(cur)
+
+    def one(ic):
+        i, c = ic
+        tag = "conf-%s-%d" % (famname, i)
+        wd = scratch.sub("tlc-" + tag)
+        open(os.path.join(wd, "trace.ndjson"), "w").writelines(c)
+        cfgp = os.path.join(wd, "PoolConform_run.cfg")
+        lines_ = ["CONSTANTS"] + [" %s = %s" % (k, tla_val(v)) for k, v in consts.items()] + ["INIT CInit", "NEXT CNext", "CHECK_DEADLOCK FALSE"]
+        open(cfgp, "w").write("\n".join(lines_) + "\n")
+        r = vlib.tlc(scratch, "PoolConform", cfgp, workers=1, timeout=1800, tag=tag, jvm=("-Xmx3g", "-XX:ParallelGCThreads=2"))
+        v = vlib.tlc_prints(r["out"], "VERDICT")
+        d = [json.loads(x) for x in vlib.tlc_prints(r["out"], "DRIFT")]
+        for x in d[:3]:
+            evs = [json.loads(ln) for ln in c if ('"sid":"%s"' % x["sid"]) in ln]
+            x["events"] = [{k: v for k, v in e.items() if k in ("i", "t", "op", "c", "s", "pk", "m", "dl", "of", "res", "rc", "rn", "auto", "d", "n", "out", "av", "keys")
+                            and v not in ("", 0, [], False)} | {"cc": [(q["k"], q["c"], q["s"]) for q in e["cc"]], "streams": e["wb"]["streams"]} for e in evs]
+        shutil.rmtree(wd, ignore_errors=True)
+        if not v:
+            raise Infra("conformance run gave no verdict:\n" + r["out"][-3000:])
+        # TLC may reach the end along several nondeterministic branches: take the best one
+        vs = [json.loads(x) for x in v]
+        best = min(vs, key=lambda x: x["drift"])
+        if best["drift"] == 0:
+            d = []          # give-ups printed along losing nondeterministic branches
+        return best, d
+    with ThreadPoolExecutor(max_workers=par) as ex:
+        res = list(ex.map(one, enumerate(chunks)))
+    out = {"events": 0, "scripts_conforming": 0, "drift": 0, "first_drifts": []}
+    for best, d in res:
+        out["events"] += best["n"]
+        out["scripts_conforming"] += best["ok"]
+        out["drift"] += best["drift"]
+        out["first_drifts"] += d[:3]
+    out["first_drifts"] = out["first_drifts"][:10]
+    return out
+
+
 def load_seed_scripts():
     p = os.path.join(vlib.VERIF, "scripts", "pool_seed.ndjson")
     out = []
